@@ -131,6 +131,28 @@ theorem outer_count (xs : List ℝ) (p0 p1 : Int) (v0 v1 : ℝ) (h0 : IsKth xs p
   have b1 := h1.2
   constructor <;> omega
 
+/-- the coordinates the copy loop tests: `x[i] = transformed[dir]` of every record of the communicator -/
+noncomputable def xsOf (t : M9 ℝ) (d : Nat) (w : World (List (Rec ℝ))) : List ℝ :=
+  w.flatten.map fun r => coordOf d (ax t r.p)
+
+theorem inOuter_real (t : M9 ℝ) (c : Cut ℝ) (r : Rec ℝ) :
+    inOuter t c r = outerB c.v0 c.v1 (coordOf c.dir (ax t r.p)) := rfl
+
+/-- size of the outer half of a level = number of coordinates passing the copy-loop test -/
+theorem half0_length (t : M9 ℝ) (c : Cut ℝ) (w : World (List (Rec ℝ))) :
+    ((w.map (splitLocal t c)).map (·.1)).flatten.length = ((xsOf t c.dir w).filter (outerB c.v0 c.v1)).length := by
+  rw [halves_fst_flatten]
+  unfold xsOf
+  rw [List.filter_map, List.length_map]
+  rfl
+
+theorem halves_total (t : M9 ℝ) (c : Cut ℝ) (w : World (List (Rec ℝ))) :
+    ((w.map (splitLocal t c)).map (·.1)).flatten.length + ((w.map (splitLocal t c)).map (·.2)).flatten.length
+      = w.flatten.length := by
+  have := (halves_perm t c w).length_eq
+  rw [List.length_append] at this
+  exact this
+
 /-! ### what the collectives of one level see -/
 
 /-- `REF_DBL_MAX` -/
